@@ -18,5 +18,5 @@ for p in $checks; do
   fi
   res="$res $p:$code"
 done
-git -C "$REPO" checkout -- .
+git -C "$REPO" checkout -- . ; git -C "$REPO" clean -fdq src
 echo "BENIGN $name $res"
